@@ -236,12 +236,13 @@ def output_traces(tier):
 
 # ---------------------------------------------------------------------------
 UCH = {"plain": "a", "digit": "2", "blank": " ", "percent": "%", "hash": "#", "question": "?", "plus": "+", "amp": "&",
-       "nonascii": "\u00e9", "astral": "\U0001F600", "upper": "Q", "combining": "e\u0301", "compat": "\u212b", "cjkcompat": "\uf900"}
+       "nonascii": "\u00e9", "astral": "\U0001F600", "upper": "Q", "combining": "e\u0301", "compat": "\u212b", "cjkcompat": "\uf900",
+       "rawbyte": "m\udce9"}      # os.fsdecode(b"m\xe9"): how Python spells a file name that is not valid UTF-8
 UNRESERVED = set(b"ABCDEFGHIJKLMNOPQRSTUVWXYZabcdefghijklmnopqrstuvwxyz0123456789-._~/")
 
 
 def rfc3986_encode(path):
-    return "".join(chr(b) if b in UNRESERVED else "%%%02X" % b for b in path.encode("utf-8"))
+    return "".join(chr(b) if b in UNRESERVED else "%%%02X" % b for b in os.fsencode(path))
 
 
 def rfc3986_decode(s):
@@ -255,7 +256,7 @@ def rfc3986_decode(s):
         else:
             out.append(b[i])
             i += 1
-    return out.decode("utf-8")
+    return os.fsdecode(bytes(out))
 
 
 def uri_part(ck, tier):
@@ -273,12 +274,18 @@ def uri_part(ck, tier):
         n += 1
         ck.count(nontrivial=False)
         # client-encoded URI -> server path
-        got = adapter.path_from_uri("file://" + rfc3986_encode(path))
+        try:
+            got = adapter.path_from_uri("file://" + rfc3986_encode(path))
+        except Exception as ex:  # noqa
+            got = "EXC " + type(ex).__name__
         if got != path:
             ck.violation({"uri:decode"} | {"class:" + c for seg in st["path"] for c in seg},
                          {"kind": "uri", "path": path, "uri": "file://" + rfc3986_encode(path), "observed": got})
         # server-encoded URI -> conforming client
-        u = adapter.path_to_uri(path)
+        try:
+            u = adapter.path_to_uri(path)
+        except Exception as ex:  # noqa
+            u = "EXC " + type(ex).__name__
         try:
             back = rfc3986_decode(u[len("file://"):]) if u.startswith("file://") else None
             raw_reserved = any(ch in u[len("file://"):] for ch in " #?")
